@@ -206,7 +206,8 @@ def run(chk):
     # known finding D21: the spherical closest-point search on the trench curve does not find the foot of a point whose
     # longitude in (-pi,pi] is a full turn away from the longitudes the trench is written with (bezier_curve.cc, spherical
     # branch: linear start estimate and clamp are not periodic).  Identified at the call site: the moved trench, probed
-    # directly with the query's natural coordinates, reports no closest point, and reports one for the 2 pi alias.
+    # directly with the query's natural coordinates and with its 2 pi alias, reports different feet (none / one, or different
+    # parameters).
     cand = [(what, d) for what, d in viol if d["motion"][0] == "longitude"]
     if cand:
         plines, owner = [], []
@@ -234,7 +235,11 @@ def run(chk):
         d21 = set()
         for k, vi in enumerate(owner):
             r0, r1 = common.parse_vec(res[2 * k]), common.parse_vec(res[2 * k + 1])
-            if r0 is not None and r1 is not None and math.isnan(r0[1]) and not math.isnan(r1[1]):
+            if r0 is None or r1 is None:
+                continue
+            # the search must not depend on which copy of the longitude it is given: no foot for one copy and a foot for
+            # the other, or feet at different parameters, is the call-site signature of D21
+            if math.isnan(r0[1]) != math.isnan(r1[1]) or (not math.isnan(r0[1]) and (abs(r0[1] - r1[1]) > 1e-6 or r0[2] != r1[2])):
                 d21.add(vi)
         keep = []
         for vi, (what, d) in enumerate(cand):
